@@ -340,6 +340,14 @@ def parts(tier):
                     for uv in (None, 0):
                         for ending in ("", "\r\n"):
                             yield (hdr, rows, uv, (), ending)
+        # cells with blanks / tabs around their content (", " as the separator of a hand-written Praat script; a blank before the line end): numbers
+        # and undefined markers alike are read as if the blanks were not there
+        PADDED = ("0.1, 100, 60", "0.2, --undefined--, 61", "0.3,120,--undefined-- ", "0.4,\t--undefined--,\t--undefined--", " 0.5 , 0 , 1e-05 ", "0.6,--undefined-- ,7")
+        for hdr in (True, False):
+            for k in (1, 2):
+                for rows in itertools.product(PADDED, repeat=k):
+                    for uv in (None, 0, -1.5):
+                        yield (hdr, rows, uv)
         # empty lines (which the loader ignores) before, between and after the header and the rows
         for hdr in (True, False):
             for k in (1, 2):
